@@ -19,7 +19,7 @@ pub const DEF: PropDef = PropDef {
     id: "C06",
     run,
     oracle,
-    rule: "cases = operation sequences Feed(parser in {A,B}, buffer of 1..3 packets) over two parser instances with independently generated allowed sets; packets come from one conformant plan over a small id pool shared by V9 and IPFIX (so an id regularly exists in both protocols and in both parsers with different meanings): template definitions, redefinitions with different field lists, changes of kind (template <-> options template), data, options data, V5/V7 packets, data for ids only the other parser knows, plus inserted truncated template packets (cut inside a template record or a flowset header), packets of versions the target parser disallows, and unknown-version garbage. Oracle: (1) after every call the public cache maps of each parser, normalised to {(protocol, kind, id) -> field list}, equal the model (latest wins, never evicts, unchanged by V5/V7, data, disallowed versions, truncated input); (2) every decodable data flowset equals the reference decode under the model's current template; (3) for each parser, every partition of its packet stream into calls (all 2^(m-1) for m <= 7 units, 48 sampled beyond; a packet that is not self-delimiting for that parser ends its call) yields identical concatenated results and final caches; (4) a fresh parser fed only B's stream ends in exactly B's state and results. Extra phase: 7..9000 distinct template ids (dense runs, runs spread over the whole id space with strides 7..4099, ids that agree in their low 8..13 bits) defined over several calls, then data for ids from the whole range - nothing is evicted, no id collides with another. Excluded shape: an IPFIX set after a set with an unknown template in the same message (C05/C07). non-trivial = a redefinition with a different field list followed by data for that id, and one of: the id is live in both protocols, the two parsers' caches diverge, a truncated template packet, a disallowed-version template packet, >= 3 partitions compared; distinct by digest.",
+    rule: "cases = operation sequences Feed(parser in {A,B}, buffer of 1..3 packets) over two parser instances with independently generated allowed sets; packets come from one conformant plan over a small id pool shared by V9 and IPFIX (so an id regularly exists in both protocols and in both parsers with different meanings): template definitions, redefinitions with different field lists, changes of kind (template <-> options template), data, options data, V5/V7 packets, data for ids only the other parser knows, plus inserted truncated template packets (cut inside a template record or a flowset header), packets of versions the target parser disallows, and unknown-version garbage. Oracle: (1) after every call the public cache maps of each parser, normalised to {(protocol, kind, id) -> field list}, equal the model (latest wins, never evicts, unchanged by V5/V7, data, disallowed versions, truncated input); (2) every decodable data flowset equals the reference decode under the model's current template; (3) for each parser, every partition of its packet stream into calls (all 2^(m-1) for m <= 7 units, 48 sampled beyond; a packet that is not self-delimiting for that parser ends its call) yields identical concatenated results and final caches; (4) a fresh parser fed only B's stream ends in exactly B's state and results. Extra phase: 7..65280 (= every usable id) distinct template ids (dense runs, runs spread over the whole id space with strides 7..4099, ids that agree in their low 8..13 bits) defined over several calls, then data for ids from the whole range - nothing is evicted, no id collides with another. Excluded shape: an IPFIX set after a set with an unknown template in the same message (C05/C07). non-trivial = a redefinition with a different field list followed by data for that id, and one of: the id is live in both protocols, the two parsers' caches diverge, a truncated template packet, a disallowed-version template packet, >= 3 partitions compared; distinct by digest.",
     assumptions: &["what a truncated V9 packet may still teach the cache: the complete template records of the complete flowsets in front of the cut (C14 states the same)"],
 };
 
@@ -539,7 +539,7 @@ pub fn c06_case(max_calls: usize) -> BoxedStrategy<Case> {
         .boxed()
 }
 
-/// many distinct template ids (7 .. 9000) defined over several calls, then data for ids from
+/// many distinct template ids (7 .. 65280 = all of them) defined over several calls, then data for ids from
 /// the whole range: "templates are never evicted", and no id collides with another
 pub fn many_ids_case() -> BoxedStrategy<Case> {
     (
@@ -547,9 +547,13 @@ pub fn many_ids_case() -> BoxedStrategy<Case> {
         // runs, runs spread over the whole id space, thousands of ids, and ids that agree in
         // their low 8..12 bits
         prop_oneof![
-            Just((70usize, 1usize)), Just((130, 1)), Just((260, 1)), Just((520, 1)), Just((1100, 1)),
-            Just((1100, 7)), Just((520, 257)), Just((1100, 4099)), Just((3000, 2053)), Just((5000, 1)), Just((9000, 7)),
-            Just((254, 256)), Just((63, 1024)), Just((31, 2048)), Just((15, 4096)), Just((7, 8192)),
+            12 => prop_oneof![
+                Just((70usize, 1usize)), Just((130, 1)), Just((260, 1)), Just((520, 1)), Just((1100, 1)),
+                Just((1100, 7)), Just((520, 257)), Just((1100, 4099)),
+                Just((254, 256)), Just((63, 1024)), Just((31, 2048)), Just((15, 4096)), Just((7, 8192)),
+            ],
+            3 => prop_oneof![Just((3000usize, 2053usize)), Just((5000, 1)), Just((9000, 7))],
+            1 => prop_oneof![Just((20000usize, 7usize)), Just((65280, 1))],
         ],
         any::<bool>(),
         proptest::collection::vec((any::<u16>(), any::<u8>()), 4..=12),
@@ -557,7 +561,8 @@ pub fn many_ids_case() -> BoxedStrategy<Case> {
     )
         .prop_map(|((n, stride), v9, probes, per_packet)| {
             let proto = if v9 { Proto::V9 } else { Proto::Ipfix };
-            let per_packet = if n > 1100 { per_packet * 50 } else { per_packet };
+            let per_packet = if n > 1100 { 1000 + per_packet * 25 } else { per_packet };
+            // (every usable id 256..=65535 when n = 65280)
             let id_of = move |j: usize| (256 + (j * stride) % 65280) as u16;
             // definition of id 256+i: two fields whose widths depend on i, so that decoding with a
             // neighbour's template is visible
@@ -606,7 +611,7 @@ pub fn many_ids_case() -> BoxedStrategy<Case> {
                 i += k;
             }
             // data for ids spread over the whole range (first, last, around powers of two, random)
-            let mut ids: Vec<usize> = vec![0, n - 1, 1.min(n - 1), 63.min(n - 1), 64.min(n - 1), 127.min(n - 1), 128.min(n - 1), 255.min(n - 1), 256.min(n - 1), 511.min(n - 1), 512.min(n - 1), 1023.min(n - 1), 1024.min(n - 1), 2047.min(n - 1), 2048.min(n - 1), 4095.min(n - 1), 4096.min(n - 1), 8191.min(n - 1), 8192.min(n - 1)];
+            let mut ids: Vec<usize> = vec![0, n - 1, 1.min(n - 1), 63.min(n - 1), 64.min(n - 1), 127.min(n - 1), 128.min(n - 1), 255.min(n - 1), 256.min(n - 1), 511.min(n - 1), 512.min(n - 1), 1023.min(n - 1), 1024.min(n - 1), 2047.min(n - 1), 2048.min(n - 1), 4095.min(n - 1), 4096.min(n - 1), 8191.min(n - 1), 8192.min(n - 1), 16383.min(n - 1), 16384.min(n - 1), 32767.min(n - 1), 32768.min(n - 1)];
             ids.extend(probes.iter().map(|(x, _)| *x as usize % n));
             for (k, id) in ids.iter().enumerate() {
                 let d = def_of(*id);
